@@ -41,8 +41,11 @@ Definition mm_py (c : pcase) : bool :=
 
 Definition go_gcase (c : pcase) : gcase :=
   let '(ctx, _, p, gn, _, docs, gobs, _) := c in (ctx, p, gn, docs, gobs, []).
-Definition go_case_unmodelled (c : pcase) : bool := case_unmodelled (go_gcase c).
-Definition mm_go (c : pcase) : bool := mm_std (go_gcase c).
+(* the Go driver could not be run for this type (its package does not compile: C10 / C01 findings) *)
+Definition go_absent (c : pcase) : bool :=
+  let '(_, _, _, _, _, _, gobs, _) := c in existsb (fun g => seqb (ob_std g) "none") gobs.
+Definition go_case_unmodelled (c : pcase) : bool := (go_absent c || case_unmodelled (go_gcase c))%bool.
+Definition mm_go (c : pcase) : bool := (negb (go_absent c) && mm_std (go_gcase c))%bool.
 
 (* ---------- the property on the observations ---------- *)
 (* from_json . to_json reproduces the document up to omitted null members *)
